@@ -223,16 +223,15 @@ func (c *Config) flattenedKeys(opts *options) []string {
 	parentFields := opts.activeFields
 	defer func() { opts.activeFields = parentFields }()
 
-	if c.IsDict() {
-		for _, v := range c.fields.dict() {
-			opts.activeFields = newFieldSet(parentFields)
-			keys = appendFlattenedKeys(keys, v, opts)
-		}
-	} else if c.IsArray() {
-		for _, a := range c.fields.array() {
-			opts.activeFields = newFieldSet(parentFields)
-			keys = appendFlattenedKeys(keys, a, opts)
-		}
+	// a node can have both parts (named settings and list entries); a
+	// dictionary that was emptied by Remove is still a dictionary
+	for _, v := range c.fields.dict() {
+		opts.activeFields = newFieldSet(parentFields)
+		keys = appendFlattenedKeys(keys, v, opts)
+	}
+	for _, a := range c.fields.array() {
+		opts.activeFields = newFieldSet(parentFields)
+		keys = appendFlattenedKeys(keys, a, opts)
 	}
 
 	return keys
